@@ -191,7 +191,9 @@ func Verif_C09_passwords() {
 	// user password
 	s1, s2, perm, err := verifReadSecret(d, d.upw)
 	verifrt.Assert(err == nil && s1 && s2, "user password recovers strings and streams")
-	if d.upw != opw {
+	if verifSignificant(d.v, d.upw) != verifSignificant(d.v, opw) {
+		// (two passwords that agree in their significant prefix are the same
+		// password: the user then has owner access)
 		closure := d.perm
 		if closure&PermPrint != 0 {
 			closure |= PermPrintDegraded
